@@ -43,6 +43,15 @@ PROP = {'title': 'Typed wrappers are transparent; ==, < and hash are mutually co
                  'reference and shared_ptr are compared by identity of the target (documented), targets with equal values are '
                  'different',
                  'moved-from objects are outside the universes (valid but unspecified)',
+                 'over-assertion audit, demoted to information counters (info:...), never a verdict: (1) how often / through which of '
+                 'the underlying type\'s operators a strong_typedef operator calls the underlying type '
+                 '(info:strong_typedef<ord>:<op>:invocations) -- only the resulting value is promised; the order type ord only has '
+                 'independent tables for < and <=, while > , >= , != are the swapped / negated forms and == is symmetric, so a wrapper that '
+                 'derives those from each other is not flagged; (2) raw_vector operator< being *lexicographic* '
+                 '(info:raw_vector:lt_lexicographic[_elem]) -- undocumented, the property only demands a strict weak order compatible '
+                 'with ==; (3) std::hash<strong_typedef> returning the same number as strong_typedef_hash '
+                 '(info:strong_typedef<T>:std_hash_differs_from_strong_typedef_hash); box<double> built from (pos,size) is skipped where '
+                 '(pos+size)-pos != size because which of the two size() reports is a representation detail',
                  'for component values that are not totally ordered (NaN, nr{0}) only ==, != and hash coherence are checked on '
                  'containers (no order laws); strong_typedef operators are checked for transparency on them',
                  'box<double> components are pos and max-pos computed in plain double arithmetic (size() is documented as derived)',
